@@ -3058,6 +3058,18 @@ func aCloneGetsEachTableFromTheSameTable(c *core.Ctx) {
 		core.Undecidedf("VirtualMachine.Clone not found")
 	}
 	n := 0
+	// tables copied by a copier (a helper that returns a new map with the entries of its argument, or maps.Clone)
+	for _, in := range cloneModelOf(p).Inits {
+		if in.Kind != "copy" || in.Read == nil {
+			continue
+		}
+		if _, byCall := in.Read.(*ssa.Call); !byCall {
+			continue // copies made by a loop are the map updates decided below
+		}
+		n++
+		c.Check(in.Source == in.Field, core.SSAName(in.Fn)+"|"+fieldNameOf(vmT, in.Field)+"|filled-from-the-same-table", p.Pos(in.Store.Pos()),
+			in.Fn.Name()+" fills the "+fieldNameOf(vmT, in.Field)+" of the new VM"+ife(in.Source == in.Field, " from the "+fieldNameOf(vmT, in.Field)+" of the VM it clones", " from the "+fieldNameOf(vmT, in.Source)+" of the VM it clones: what is in its "+fieldNameOf(vmT, in.Field)+" and not there (the modules that the script has imported) is missing in the clone"))
+	}
 	for _, fn := range clones {
 		recv := ssa.Value(fn.Params[0])
 		for _, b := range fn.Blocks {
